@@ -32,6 +32,19 @@ CLAIMED['C18'] = dict(
    technique="Coq proof over decoder + compatibility model, generated update table + differential correspondence + independent moderniser oracle",
    design_ref="5/C18")
 
+CLAIMED['C01'] = dict(
+   text="Proof (in stages, see props/C01.v): the full statement is kept as C01_full_statement and is REFUTED on the faithful model by the 100-ring witness (%100, known finding); proved so far: the three state functions regenerated from grammar_rules.py on every run never hand out more bond order than state, requested order and capacity allow (all integers), 99 rings are still legal; the graph invariant of derivation + ring pass is the next stage (proofs/DecoderInv.v). Decoder model tied by exact-output correspondence (bounded-exhaustive + sampled, many tables); every implementation output is judged by the extracted independent SMILES reader valid_smiles_under.",
+   technique="Coq proof over regenerated state functions + refutation witness + exact correspondence of the decoder model + extracted independent-reader oracle",
+   design_ref="5/C01")
+CLAIMED['C02'] = dict(
+   text="Proof (partial, see props/C02.v): every rule's arithmetic (atom, branch, ring; regenerated from source) and every symbol table (regenerated) equals the documented grammar; index code = documented base-16 code. The refinement 'decoder = documented derivation' (C02_full_statement) is not yet a theorem: it is checked per input by the extracted documented-grammar evaluator (spec/DocGrammar.v) against the molecule the independent reader reads from the implementation's output - bounded-exhaustive over a rule-covering symbol set and sampled.",
+   technique="Coq proof of rule/table equalities + extracted documented-grammar evaluator and independent reader as oracle (bounded-exhaustive + sampled) + exact correspondence",
+   design_ref="5/C02")
+CLAIMED['C08'] = dict(
+   text="Proof (partial, see props/C08.v): assertions inside the state functions are unreachable at their call sites; a reached symbol outside the grammar raises DecoderError. Crash-freedom of the whole decoder model (every partial operation unreachable, fuel sufficient) is the next proof stage; until then outcome classes of implementation and model are compared on malformed / arbitrary / long / nested inputs with all flag combinations and the constraint table is checked untouched. Two interpreter limits are known findings.",
+   technique="Coq proof (partial) + outcome-class correspondence on malformed and arbitrary strings + known-finding classifiers",
+   design_ref="5/C08")
+
 PENDING = {}
 for i in range(1, 20):
     pid = 'C%02d' % i
